@@ -31,14 +31,19 @@ func checkC08(c *Ctx) {
 		return
 	}
 	// ---- R1
-	ws := P.FieldWrites(fFrames, "tubes")
+	ws := P.HoistWrites(P.FieldWrites(fFrames, "tubes"), func(fn *ssa.Function) bool {
+		switch FuncName(fn) {
+		case "tubes.(*sender).write", "tubes.(*sender).sendFin", "tubes.(*sender).recvAck", "tubes.newSender":
+			return true
+		}
+		return false
+	})
 	fAck := P.Field("tubes", "sender", "ackNo")
 	for _, w := range ws {
 		fn := FuncName(w.Fn)
-		st, _ := w.Instr.(*ssa.Store)
 		kind := "other"
-		if st != nil {
-			switch v := strip(st.Val).(type) {
+		if w.Kind == "store" && w.Val != nil {
+			switch v := strip(w.Val).(type) {
 			case *ssa.Call:
 				if b, ok := v.Call.Value.(*ssa.Builtin); ok && b.Name() == "append" && endsInField(v.Call.Args[0], fFrames, false) {
 					kind = "append"
@@ -661,6 +666,12 @@ func c09R2R3(c *Ctx) {
 	fTT := P.Field("tubes", "initiateFrame", "tubeType")
 	fTID := P.Field("tubes", "initiateFrame", "tubeID")
 	nResp := 0
+	// the sites, wherever they are; those in the receiver or in helpers cut out of it are checked on paths
+	type siteInfo struct {
+		seen, ok bool
+		cons     string
+	}
+	sites := map[ssa.Instruction]*siteInfo{}
 	for _, f := range P.ModuleFuncs("tubes") {
 		for _, cs := range callSitesIn(f, false, mkR, mkU) {
 			a := cs.Common().Args
@@ -669,15 +680,37 @@ func c09R2R3(c *Ctx) {
 				continue // local creation
 			}
 			nResp++
-			cons := fmt.Sprintf("call:%s@%s", calleeFunc(cs.Common()).Name(), FuncName(f))
-			if f != rcv {
+			ownerName := FuncName(f)
+			if P.OwnedBy(f, rcv) {
+				ownerName = FuncName(rcv)
+			}
+			cons := fmt.Sprintf("call:%s@%s", calleeFunc(cs.Common()).Name(), ownerName)
+			if !P.OwnedBy(f, rcv) {
 				c.Fail("C09.R3", cons, P.InstrPos(cs), "a tube is created on behalf of the peer (req=false) outside the receiver")
 				continue
 			}
-			mf := ComputeMustFacts(f)
-			notFound, reqFlag, relOK := false, false, false
-			for k, v := range mf.At(cs) {
-				if k.op == token.ILLEGAL {
+			if !isC {
+				c.Fail("C09.R3", cons, P.InstrPos(cs), "the req argument of a tube creation in the receiver is not the constant false")
+				continue
+			}
+			sites[cs.(ssa.Instruction)] = &siteInfo{ok: true, cons: cons}
+		}
+	}
+	if rcv != nil && len(sites) > 0 {
+		okWalk := walkAllOpts(c, "C09.R3", rcv, PathOpts{MaxVisits: 1, InlineDepth: 2, EmitTruncated: true}, func(p *Path) {
+			p.ForEach(func(i int, ins ssa.Instruction) bool {
+				si := sites[ins]
+				if si == nil {
+					return true
+				}
+				si.seen = true
+				cs := ins.(ssa.CallInstruction)
+				a := cs.Common().Args
+				notFound, reqFlag, relOK := false, false, false
+				for k, v := range p.FactsAt(i) {
+					if k.op != token.ILLEGAL {
+						continue
+					}
 					if ex, ok := k.x.(*ssa.Extract); ok && ex.Index == 1 && !v {
 						if call, ok := ex.Tuple.(*ssa.Call); ok && calleeID(call) == hopID("tubes", "Muxer", "getTube") {
 							notFound = true
@@ -690,11 +723,23 @@ func c09R2R3(c *Ctx) {
 						relOK = v == (calleeID(cs) == mkR)
 					}
 				}
+				argsOK := endsInField(a[1], fTT, false) && endsInField(a[2], fTID, false)
+				if !(notFound && reqFlag && relOK && argsOK) {
+					si.ok = false
+				}
+				return true
+			})
+		})
+		for ins, si := range sites {
+			switch {
+			case !okWalk:
+			case !si.seen:
+				c.Undecided("C09.R3", si.cons, "the creation site is not on any enumerated path of the receiver")
+			default:
+				c.Check(si.ok, "C09.R3", si.cons, P.InstrPos(ins),
+					"created for the peer only when no such tube exists, the frame carries REQ, with that frame's reliability, type and id",
+					"the receiver creates (and offers) a tube for the peer without all of: lookup missed, REQ flag set, reliability / type / id taken from that frame (a duplicate request would be offered twice, or the tube would get the wrong type or reliability)")
 			}
-			argsOK := endsInField(a[1], fTT, false) && endsInField(a[2], fTID, false)
-			c.Check(notFound && reqFlag && relOK && argsOK && isC && !reqV, "C09.R3", cons, P.InstrPos(cs),
-				"created for the peer only when no such tube exists, the frame carries REQ, with that frame's reliability, type and id",
-				"the receiver creates (and offers) a tube for the peer without all of: lookup missed, REQ flag set, reliability / type / id taken from that frame (a duplicate request would be offered twice, or the tube would get the wrong type or reliability)")
 		}
 	}
 	c.Floor("C09.R3", "peer-initiated tube creations", nResp, 2)
